@@ -135,7 +135,7 @@ func compileStmt(ctx *blockCtx, stmt ast.Stmt) {
 		inFlags := checkCommandWithoutArgs(x)
 		base := ctx.cb.InternalStack().Len()
 		compileExpr(ctx, x, inFlags)
-		if e, ok := x.(*ast.ErrWrapExpr); ok && e.Tok == token.QUESTION && e.Default == nil {
+		if isBareErrWrap(x) {
 			discardErrWrapValues(ctx, base)
 		}
 	case *ast.AssignStmt:
@@ -184,6 +184,16 @@ func compileStmt(ctx *blockCtx, stmt ast.Stmt) {
 		log.Panicf("compileStmt failed: unknown - %T\n", v)
 	}
 	ctx.cb.EndStmt()
+}
+
+// isBareErrWrap reports whether x is `expr?` or its command-style form `cmd? args`
+// (a call whose function is `cmd?`, see compileCallExpr).
+func isBareErrWrap(x ast.Expr) bool {
+	if c, ok := x.(*ast.CallExpr); ok && c.IsCommand() {
+		x = c.Fun
+	}
+	e, ok := x.(*ast.ErrWrapExpr)
+	return ok && e.Tok == token.QUESTION && e.Default == nil
 }
 
 // discardErrWrapValues turns the values that `expr?` leaves behind when it is used as
